@@ -234,6 +234,8 @@ def check_template(ctx, m, f, t, p):
         tail = c[2][1] if len(c) > 2 and c[2][0] == "lit" else ""
         got.append((lit, hole, tail, len(c)))
     ok_n = len(got) == 3
+    if not got and any(isinstance(c_, ast.Call) and isinstance(c_.func, ast.Attribute) and c_.func.attr in ("join", "format") for c_ in ast.walk(m.pass2)):
+        raise AnalysisError("R09.2", f.where(m.pass2), "the written line is assembled with join / format in a way this rule does not read as raw line + appended fields")
     ctx.check(ok_n, "R09.2", f.where(m.pass2), "exactly three fields are appended", key_of(f, f"appended-count:{len(got)}"), template=tmpl.show(t))
     if not ok_n:
         return
@@ -304,6 +306,8 @@ def r09_3(ctx, m):
             for t in ("SN", "SR", "BO", "NO"):
                 if f"tags['{t}']" in s:
                     tagvar[t] = (st.targets[0].id, s)
+    if not {"SN", "SR"} <= set(tagvar):
+        raise AnalysisError("R09.3", pa.where(loop), f"cannot find the locals that hold the SN and SR tags of the current node (found {sorted(tagvar)}): the tags are read in a form this rule does not follow")
     for st in sn_assigns:
         if any(x is st for x in ast.walk(loop)):
             # inside the loop: value must be the SN tag, guard must include SR == 0
